@@ -3,6 +3,7 @@ from .. import gen
 from ..rateprobe import run_case, reference, updated, common_buckets, exc_detail
 
 PROPERTY = "C02"
+PYTEST_PREFIX = "C02/"
 LEVEL = "exploration"
 RULE = ("Games whose players are all distinct in (mu, sigma, name); every real rate() return is checked against a "
         "pre-call snapshot: same nesting, id and name per slot, pairwise distinct result objects, numbers at (i,j) "
